@@ -55,6 +55,7 @@ class Entry:
         self.n_queries = 0
         self.last_query = None
         self.alive = True
+        self.family = None          # objects that may legitimately share node objects (set by the session)
 
 
 class _Dead:
@@ -87,14 +88,18 @@ class Session:
         if self.ev is not None:
             self.ev.count(name, n)
 
-    def _check_states(self, after):
+    def _check_states(self, after, target=None):
+        tfam = self.pool[target].family if target is not None and target < len(self.pool) and getattr(self.pool[target], "family", None) is not None else None
         for idx, e in enumerate(self.pool):
             if not e.alive:
                 continue
             now = norm(hist.canon(e.obj))
             if now != e.snap0:
                 paths = _diff_paths(e.snap0, now)
-                if self.tolerant and paths and all(_is_leak_footprint(p, e.snap0, self.named) for p in paths):
+                # the open finding writes into the node objects of the object that was asked; another pooled object shows
+                # the same footprint only if it holds those very node objects (same family)
+                related = tfam is None or e.family == tfam
+                if self.tolerant and related and paths and all(_is_leak_footprint(p, e.snap0, self.named) for p in paths):
                     e.alive = False
                     self.tolerated += 1
                     self._count("excluded_known")
@@ -126,6 +131,7 @@ class Session:
                 self.pool.append(_Dead())
                 return None
             e = Entry(prov, obj, "cfg" if s["spec"].get("k") == "Stingy" else "model", s.get("twin_of"))
+            e.family = len(self.pool)
             self.pool.append(e)
             if s.get("twin_of") is not None:
                 self.twin_pairs.append((s["twin_of"], len(self.pool) - 1))
@@ -152,13 +158,17 @@ class Session:
             if obj is not None and not isinstance(obj, str):
                 prov = {"spec": e.prov["spec"], "chain": e.prov["chain"] + [s["op"]]}
                 kind = "var" if oracle.is_leaf(obj) else ("cfg" if type(obj).__name__ == "StingyConfigurator" else "model")
-                self.pool.append(Entry(prov, obj, kind, s["idx"]))
+                ne = Entry(prov, obj, kind, s["idx"])
+                # assume(), the JSON and the base64 round trip build every node anew; add(), negate() and reduce() may hand
+                # over the receiver's own node objects, so only those results form one family with the receiver
+                ne.family = len(self.pool) if s["op"]["op"] in ("assume", "json", "b64") else e.family
+                self.pool.append(ne)
                 self.n_derived += 1
             else:
                 self.pool.append(_Dead())
         else:
             raise ValueError(k)
-        self._check_states(k)
+        self._check_states(k, s.get("idx") if k in ("query", "derive") else None)
 
     def _compare(self, e, q, what):
         got = norm(hist.run_query(e.obj, q, self.shared))
@@ -533,8 +543,32 @@ def replay(case, ev):
     ev.case(case, sm["max_queries_one_object"] >= 2, ["replay"])
 
 
+def derived_then_named(tier):
+    """scripted histories (tolerant mode): a model, a model derived from it by assume() / the JSON / the base64 round trip (all
+    three build every node anew), then a query on the ORIGINAL that names a sub-proposition id in a part of the tree the
+    derivation did not touch (the open finding writes into the original's node there), then queries on the DERIVED model -
+    which must still answer like a freshly derived one"""
+    L = lambda i: {"k": "leaf", "id": i, "b": [0, 1]}
+    for root_kind in ("All", "Any", "AtLeast"):
+        for s2_kind in ("All", "Xor"):
+            spec = {"k": root_kind, "id": "A", "c": [{"k": "Any", "id": "B", "c": [L("a"), L("b")]}, {"k": s2_kind, "id": "E", "c": [L("c"), L("d")]}, L("z")]}
+            if root_kind == "AtLeast":
+                spec["v"], spec["s"] = 2, 1
+            for op in ({"op": "assume", "d": [["a", 0, 1, 1]]}, {"op": "assume", "d": [["z", 1, 0, 0]]}, {"op": "json"}, {"op": "b64"}):
+                for e_val in (0, 1):
+                    for naming in ("evaluate", "assume", "evaluate_propositions"):
+                        steps = [{"s": "create", "spec": spec},
+                                 {"s": "derive", "idx": 0, "op": op},
+                                 {"s": "query", "idx": 0, "query": {"q": naming, "i": [["E", 0, e_val, e_val], ["z", 0, 1, 1]]}}]
+                        for c_val, d_val in ((1, 1), (0, 0), (1, 0)):
+                            steps.append({"s": "query", "idx": 1, "query": {"q": "evaluate", "i": [["a", 0, 1, 1], ["b", 0, 0, 0], ["c", 0, c_val, c_val], ["d", 0, d_val, d_val], ["z", 0, 1 - e_val, 1 - e_val]]}})
+                        steps.append({"s": "query", "idx": 1, "query": {"q": "to_json"}})
+                        yield {"tolerant": True, "steps": steps}
+
+
 def parts(tier):
     return [
         Part("strict", machine=make_machine(False), check=replay, quick=(6, 130), thorough=(12, 800), time_quick=50, time_thorough=900),
         Part("tolerant", machine=make_machine(True), check=replay, quick=(2, 80), thorough=(4, 500), time_quick=50, time_thorough=900),
+        Part("derived_then_named", enumerate_cases=derived_then_named, check=replay, time_quick=150.0),
     ]
